@@ -164,6 +164,31 @@ class Opaque(object):
         return 'Opaque(%s)' % self.desc
 
 
+class SArr(object):
+    """Symbolic 1-D array of concrete length (entries Rat / None=undefined);
+    NumPy basic-slice semantics for reads (copies) and writes."""
+
+    def __init__(self, items):
+        self.items = list(items)
+
+    def __len__(self):
+        return len(self.items)
+
+    def __repr__(self):
+        return 'SArr(%r)' % (self.items,)
+
+
+class Rec(object):
+    """Ad-hoc record value with attributes (grids, intervals...)."""
+
+    def __init__(self, kind, **attrs):
+        self.kind = kind
+        self.attrs = dict(attrs)
+
+    def __repr__(self):
+        return 'Rec(%s)' % self.kind
+
+
 class ModuleV(object):
     """An imported module the interpreter knows nothing about."""
 
@@ -551,6 +576,10 @@ class Interp(object):
             return self.vec_attr(obj, name)
         if isinstance(obj, SpaceV):
             return self.space_attr(obj, name)
+        if isinstance(obj, Rec):
+            if name in obj.attrs:
+                return obj.attrs[name]
+            raise PyRaise('AttributeError')
         if isinstance(obj, _Ufuncs):
             return self.ufunc_attr(obj, name)
         if obj is NPV:
@@ -568,6 +597,11 @@ class Interp(object):
             if name == 'element':
                 return Builtin('field.element', lambda v=0: v)
             raise Undecided('field attribute %s' % name)
+        if isinstance(obj, slice) and name in ('start', 'stop', 'step'):
+            return getattr(obj, name)
+        if isinstance(obj, list) and name in ('count', 'index', 'extend',
+                                              'insert', 'pop'):
+            return Builtin('list.' + name, getattr(obj, name))
         if isinstance(obj, dict) and name in ('pop', 'get'):
             def pop(k, d=None, obj=obj, name=name):
                 if name == 'pop':
@@ -785,8 +819,46 @@ class Interp(object):
                     return out
                 raise Undecided('np.%s of scalars' % name)
             return Builtin('np.' + name, mm)
-        if name in ('asarray', 'array'):
-            return Builtin('np.asarray', lambda v, **k: v)
+        if name in ('asarray', 'array', 'atleast_1d'):
+            def asarr(v, **k):
+                if isinstance(v, (list, tuple)) and all(
+                        is_scalar(x) for x in v):
+                    return SArr(list(v))
+                if is_scalar(v) and name == 'atleast_1d':
+                    return SArr([v])
+                return v
+            return Builtin('np.' + name, asarr)
+        if name in ('empty', 'zeros', 'ones'):
+            def mk(n, *a, **k):
+                if isinstance(n, (tuple, list)) and len(n) == 1:
+                    n = n[0]
+                if not isinstance(n, int):
+                    raise Undecided('np.%s(%r)' % (name, n))
+                fill = {'empty': None, 'zeros': 0, 'ones': 1}[name]
+                return SArr([fill] * n)
+            return Builtin('np.' + name, mk)
+        if name in ('empty_like', 'zeros_like'):
+            def mkl(a, **k):
+                if isinstance(a, SArr):
+                    return SArr([None if name == 'empty_like' else 0]
+                                * len(a.items))
+                raise Undecided('np.%s(%r)' % (name, a))
+            return Builtin('np.' + name, mkl)
+        if name == 'size':
+            def size(v):
+                if isinstance(v, (SArr,)):
+                    return len(v.items)
+                if isinstance(v, (list, tuple)):
+                    return len(v)
+                return 1
+            return Builtin('np.size', size)
+        if name in ('max', 'min'):
+            def mx(v, **k):
+                vals = v.items if isinstance(v, SArr) else v
+                if all(isinstance(x, int) for x in vals):
+                    return max(vals) if name == 'max' else min(vals)
+                raise Undecided('np.%s of symbolic values' % name)
+            return Builtin('np.' + name, mx)
         if name in ('any', 'all', 'less', 'greater', 'less_equal',
                     'greater_equal'):
             return Builtin('np.' + name, lambda *a, **k: Opaque('np.' + name))
@@ -931,6 +1003,8 @@ class Interp(object):
             it = self.ev(s.iter, scope, func)
             if isinstance(it, PVec):
                 it = it.parts
+            if isinstance(it, SArr):
+                it = it.items
             if not isinstance(it, (list, tuple, range)):
                 raise Undecided('loop over %r' % (it,))
             broke = False
@@ -1035,7 +1109,27 @@ class Interp(object):
                 else:
                     raise Undecided('slice assignment of %r' % (v,))
                 return
-            idx = self.ev(sl, scope, func)
+            idx = self.ev(sl, scope, func) if not isinstance(sl, ast.Slice) \
+                else slice(
+                    self.ev(sl.lower, scope, func) if sl.lower else None,
+                    self.ev(sl.upper, scope, func) if sl.upper else None,
+                    self.ev(sl.step, scope, func) if sl.step else None)
+            if isinstance(obj, SArr):
+                if isinstance(idx, int):
+                    try:
+                        obj.items[idx] = v
+                    except IndexError:
+                        raise PyRaise('IndexError')
+                    return
+                if isinstance(idx, slice):
+                    n = len(obj.items[idx])
+                    vals = v.items if isinstance(v, SArr) else [v] * n
+                    if len(vals) != n:
+                        raise Undecided('array store of %d values into %d '
+                                        'entries' % (len(vals), n))
+                    obj.items[idx] = vals
+                    return
+                raise Undecided('array store index %r' % (idx,))
             if isinstance(obj, PVec) and isinstance(idx, int):
                 self.assign_into(obj.parts[idx], v)
                 return
@@ -1280,6 +1374,23 @@ class Interp(object):
                 self.ev(sl.lower, scope, func) if sl.lower else None,
                 self.ev(sl.upper, scope, func) if sl.upper else None,
                 self.ev(sl.step, scope, func) if sl.step else None)
+        if isinstance(obj, Rec) and callable(obj.attrs.get('__getitem__')):
+            return obj.attrs['__getitem__'](idx)
+        if isinstance(obj, SArr):
+            try:
+                if isinstance(idx, slice):
+                    return SArr(obj.items[idx])
+                if isinstance(idx, int):
+                    v = obj.items[idx]
+                    if v is None:
+                        raise Undecided('read of an undefined array entry')
+                    return v
+                if isinstance(idx, (list, SArr)):
+                    ii = idx.items if isinstance(idx, SArr) else idx
+                    return SArr([obj.items[i] for i in ii])
+            except IndexError:
+                raise PyRaise('IndexError')
+            raise Undecided('array index %r' % (idx,))
         if isinstance(obj, PVec):
             if isinstance(idx, int):
                 return obj.parts[idx]
@@ -1437,6 +1548,17 @@ class Interp(object):
                     return a ** int(r.constant())
                 return Rat.var(satom('pow', a, b))
             raise Undecided('scalar operator %s' % op.__name__)
+        if isinstance(l, SArr) or isinstance(r, SArr):
+            la = l.items if isinstance(l, SArr) else None
+            ra = r.items if isinstance(r, SArr) else None
+            if la is not None and ra is not None:
+                if len(la) != len(ra):
+                    raise Undecided('array shapes %d, %d' % (len(la),
+                                                              len(ra)))
+                return SArr([self.binop(op, a, b) for a, b in zip(la, ra)])
+            if la is not None:
+                return SArr([self.binop(op, a, r) for a in la])
+            return SArr([self.binop(op, l, b) for b in ra])
         lv, rv = isinstance(l, Vec), isinstance(r, Vec)
         if lv and rv:
             if op in (ast.Add, ast.Sub):
@@ -1587,6 +1709,8 @@ class Interp(object):
             v = args[0]
             if isinstance(v, PVec):
                 return len(v.parts)
+            if isinstance(v, SArr):
+                return len(v.items)
             if isinstance(v, SpaceV) and v.parts is not None:
                 return len(v.parts)
             if isinstance(v, (list, tuple, dict, str, range)):
@@ -1599,6 +1723,8 @@ class Interp(object):
             if isinstance(v, Rat) and v.is_const() and \
                     v.constant().denominator == 1:
                 return int(v.constant())
+            if isinstance(v, Rat) and not v.is_const():
+                return v        # a symbolic count: integral by assumption
             raise Undecided('int(%r)' % (v,))
         if name == 'float' or name == 'complex':
             v = args[0]
@@ -1614,10 +1740,12 @@ class Interp(object):
                 return list(range(*args))
             raise Undecided('range of symbolic bound')
         if name == 'zip':
-            seqs = [a.parts if isinstance(a, PVec) else a for a in args]
+            seqs = [a.parts if isinstance(a, PVec) else
+                    a.items if isinstance(a, SArr) else a for a in args]
             return [tuple(t) for t in zip(*seqs)]
         if name == 'enumerate':
-            a = args[0].parts if isinstance(args[0], PVec) else args[0]
+            a = args[0].parts if isinstance(args[0], PVec) else (
+                args[0].items if isinstance(args[0], SArr) else args[0])
             return [(i, v) for i, v in enumerate(a)]
         if name in ('tuple', 'list'):
             if not args:
@@ -1641,6 +1769,10 @@ class Interp(object):
             return Opaque('type')
         if name == 'str' or name == 'repr':
             return args[0] if args and isinstance(args[0], str) else '<str>'
+        if name == 'slice':
+            return slice(*args)
+        if name == 'round':
+            return args[0]
         if name == 'set':
             return _uniq(list(args[0])) if args else []
         if name == 'dict':
@@ -1701,6 +1833,12 @@ class Interp(object):
         if isinstance(v, FieldV):
             return nm in ('Field', 'Set', 'RealNumbers' if v.kind == 'R'
                           else 'ComplexNumbers')
+        if isinstance(v, slice):
+            return nm == 'slice'
+        if isinstance(v, Rec):
+            return nm == v.kind
+        if isinstance(v, SArr):
+            return nm in ('ndarray',)
         if isinstance(v, bool):
             return nm in ('bool', 'int', 'Integral', 'Number')
         if isinstance(v, int):
@@ -1777,7 +1915,7 @@ class _Ufuncs(object):
         self.v = v
 
 
-_PY_BUILTINS = {'set', 'dict', 'sorted', 'reversed',
+_PY_BUILTINS = {'set', 'dict', 'sorted', 'reversed', 'slice', 'round',
                 'isinstance', 'getattr', 'hasattr', 'len', 'int', 'float',
                 'complex', 'range', 'zip', 'enumerate', 'tuple', 'list',
                 'abs', 'callable', 'type', 'str', 'repr', 'all', 'any',
